@@ -61,8 +61,13 @@ def find_starting_node_from_spec(topology, start_nodes):
             topology.molecules[mol_idx].root = node
         else:
             for idx, molecule in enumerate(topology.molecules):
-                if molecule.mol_name == res_spec['molname']:
-                    node = list(_find_nodes(molecule, res_spec))[0]
+                # without a molecule name the residue is selected in all molecules
+                if 'molname' not in res_spec or molecule.mol_name == res_spec['molname']:
+                    nodes = list(_find_nodes(molecule, res_spec))
+                    # not every molecule needs to have the residue if none is named
+                    if not nodes and 'molname' not in res_spec:
+                        continue
+                    node = nodes[0]
                     start_dict[idx] = node
                     molecule.root = node
     return start_dict
